@@ -6404,11 +6404,15 @@ fn eval_expr(
                 let mut items: rpds::HashTrieMap<String, Value> = rpds::HashTrieMap::new();
                 let mut value_type = Type::no_value();
 
+                // The keys and values popped so far.
+                let mut popped_values = vec![];
+
                 for kv in item_exprs {
                     // The evaluated value of key-value pair.
                     let value_value = env
                         .pop_value()
                         .expect("Value stack should have sufficient items for the dict literal");
+                    popped_values.push(value_value.clone());
 
                     // TODO: check that all elements are of a compatible type.
                     // Dict[1 => 1, 2 => ""] should be a runtime error.
@@ -6417,12 +6421,12 @@ fn eval_expr(
                     let key_value = env
                         .pop_value()
                         .expect("Value stack should have sufficient items for the dict literal");
+                    popped_values.push(key_value.clone());
 
                     let key_str = check_string(
                         &key_value,
                         &kv.key.position,
-                        // TODO: set saved_values properly here.
-                        vec![],
+                        popped_values.iter().rev().cloned().collect(),
                         env,
                     )?;
 
